@@ -93,7 +93,7 @@ def upper_table(strings):
     return list(tbl.items())
 
 
-def _init_tag(rng):
+def _init_parts(rng):
     name = rng.choice(NAMES + ["Foo", "a.B", "X"] * 6 + c20.extra()) if rng.random() < 0.9 else "".join(rng.choice("aB.é_") for _ in range(rng.randint(0, 5)))
     r = rng.random()
     nm = S(name) if r < 0.9 else (J(name) if r < 0.95 else rng.choice(["N", "I 3", H(name), "L [ ]"]))
@@ -110,7 +110,21 @@ def _init_tag(rng):
     else:
         allowed = rng.choice(["U [ " + "".join(S(k) + " " for k in ks) + "]", "I 3", S("id x_"), "M [ " + es("id") + " N ]", "L [ " + H("id") + " ]"])
     kids = children(rng)
-    return upper_table([name]), f"[ O JSXTag [ ] {nm} U [ {''.join(k + ' ' for k in kids)}] {allowed} {kw} ]"
+    return name, nm, f"U [ {''.join(k + ' ' for k in kids)}]", allowed, kw
+
+
+def _init_tag(rng):
+    name, nm, args, allowed, kw = _init_parts(rng)
+    return upper_table([name]), f"[ O JSXTag [ ] {nm} {args} {allowed} {kw} ]"
+
+
+def _create_tag(rng):
+    """the closure `jsx_tag_create(name, allowedProps)` returns, called with `*args, **kwargs`: now and then with a keyword
+    called like a parameter of `JSXTag.__init__` (TypeError: multiple values)"""
+    name, nm, args, allowed, kw = _init_parts(rng)
+    if rng.random() < 0.08:
+        kw = "M [ " + es(rng.choice(["_name", "allowedProps", "self"])) + " I 1 ]"
+    return upper_table([name]), f"[ {nm} {allowed} {args} {kw} ]"
 
 
 def _extend(rng):
@@ -188,7 +202,15 @@ C20B_GENS = {
     "JSXTag_extendC20b": _extend,
     "JSXTag_appendC20b": lambda rng: ([], f"[ {jsxtag(rng)} U [ {''.join(k + ' ' for k in children(rng))}] ]"),
     "JSXTag_copyC20b": lambda rng: ([], f"[ {jsxtag(rng)} ]"),
-    "lib_dependencyC20b": lambda rng: ([], f"[ {rng.choice([S('react'), S('react-dom')] * 4 + [S('vue'), S(''), S('react_dom')] + c20.extra()[:3] + ['N', J('react'), H('react')])} "
+    "jsx_newC20b": lambda rng: ([], "[ U [ " + "".join(rng.choice([S(c20.text(rng)), S(c20.text(rng)), J(c20.text(rng)), H("h"), "I 1", "N"]
+                                                                   if rng.random() < 0.15 else [S(c20.text(rng)), J(c20.text(rng))]) + " "
+                                                       for _ in range(rng.choice([0, 1, 1, 2, 3]))) + "] ]"),
+    "jsx_addC20b": lambda rng: ([], f"[ {J(c20.text(rng)) if rng.random() < 0.9 else rng.choice([S('a'), 'I 1', H('h')])} "
+                                    f"{rng.choice([S(c20.text(rng)), J(c20.text(rng))] * 6 + [H('h'), 'I 1', 'N', 'L [ ]'])} ]"),
+    "jsx_tag_createC20b": lambda rng: ([], f"[ {rng.choice([S(rng.choice(NAMES)), S(rng.choice(NAMES)), J('Foo'), 'N', 'I 3', H('Foo')])} "
+                                           f"{rng.choice(['N', 'L [ ]', 'L [ ' + S('id') + ' ]', 'I 1'])} ]"),
+    "jsx_create_tagC20b": lambda rng: _create_tag(rng),
+    "lib_dependencyC20b": lambda rng: ([], f"[ {rng.choice([S('react'), S('react-dom')] * 4 + [S('vue'), S(''), S('react_dom')] + [S(w) for w in c20.extra()[:3]] + ['N', J('react'), H('react')])} "
                                            + rng.choice(["M [ " + es("src") + " " + S(rng.choice(["a.js", "react.production.min.js", ""])) + " ]", "M [ ]", "N",
                                                          "L [ M [ " + es("src") + " " + S("a.js") + " ] ]", "L [ ]", S("a.js"), "L [ I 1 ]", "I 3",
                                                          "M [ " + es("href") + " " + S("a.js") + " ]",
